@@ -9,6 +9,7 @@ G12 = [
     "states=1", "det=10", "minlit=1", "minlit=64", "maxlits=1", "maxlits=1000", "rec=10",
     "states=1,det=10,maxlits=1,minlit=3",
 ]
+EXTRA12 = [(r"(foo|bar).+x", [("foo", ""), ("a bar-", "")])]
 QG = ["dfa=0", "pf=0", "ascii=0", "states=1,det=10,maxlits=1,minlit=3", "minlit=1"]
 
 
@@ -40,6 +41,17 @@ def items(tier):
         if corpus.deep(tags):
             for g in ["dfa=0,pf=0,ascii=0", "states=1,det=10,maxlits=1,minlit=3"]:
                 out.append(mk("C12", p, "FindIndex", 4, a, extra=g, strategy=strat))
+    # literal alternation followed by a non-literal tail, medium NFA: the literal thresholds (MinLiteralLen, MaxLiterals)
+    # decide between the literal, DFA and adaptive strategies; windows put the literal in front of the symbolic tail
+    for p, wins in EXTRA12:
+        for g in (QG + ["minlit=64", "minlit=4"] if tier == "quick" else G12 + ["minlit=4"]):
+            if "maxlits=1" in g:
+                continue  # truncation of the literal set is a recorded finding of its own (known class)
+            for pre, post in wins:
+                a12 = "hex:2d78200a61" if tier == "quick" else alpha_for(p)  # quick: - x space \n a
+                out.append(mk("C12", p, "FindIndex", 3, a12, extra=g, pre=pre, post=post))
+                if tier != "quick":
+                    out.append(mk("C12", p, "Match", 3, a12, extra=g, pre=pre, post=post))
     # literal alternations next to assertions: Match and FindIndex under every configuration, with windows
     for p, strat, tags in corpus.entries("thorough", tag="lit"):
         a = alpha_for(p)
